@@ -187,8 +187,8 @@ func (c *Cron) set(j *Job) error {
 		return nil
 	}
 
-	if t, err := time.Parse(j.Expression, time.RFC3339); err == nil {
-		j.at = t
+	if t, err := time.Parse(time.RFC3339, j.Expression); err == nil {
+		j.at = t.UTC()
 		j.Once = true
 		return nil
 	}
